@@ -1,6 +1,314 @@
+//! C03 — SuperMinHash / SuperMinHash2 estimate the Jaccard index without bias, variance below MinHash;
+//! single-item sketches carry a uniformly random permutation of integer parts with independent uniform fractional parts
 use crate::common::*;
+use crate::gen::*;
+use crate::sk::*;
+use crate::stat::*;
+use rand::Rng as _;
+use rayon::prelude::*;
+use serde_json::json;
+
+/// fresh identifiers whose hashes (as the sketcher computes them) are pairwise distinct
+pub fn fresh_ids_distinct_hash(rng: &mut Rng, n: usize, kind: UKind) -> (Vec<u64>, u64) {
+    let mut regenerated = 0;
+    loop {
+        let ids = fresh_ids(rng, n, 0);
+        if !matches!(kind, UKind::Smh2U32) {
+            return (ids, regenerated);
+        }
+        let mut hs: Vec<u64> = ids.iter().map(|&d| kind.item_hash(d)).collect();
+        hs.sort_unstable();
+        if hs.windows(2).all(|w| w[0] != w[1]) {
+            return (ids, regenerated);
+        }
+        regenerated += 1;
+    }
+}
+
+struct Shape {
+    name: &'static str,
+    a_only: usize,
+    b_only: usize,
+    both: usize,
+}
+
+fn perm_index(p: &[usize]) -> usize {
+    let m = p.len();
+    let mut idx = 0;
+    for i in 0..m {
+        let smaller = p[i + 1..].iter().filter(|&&x| x < p[i]).count();
+        idx = idx * (m - i) + smaller;
+    }
+    idx
+}
+
+/// classify a single item sketch: Ok(integer parts) if a permutation, Err(kind of failure)
+fn int_parts(vals: &[f64]) -> Result<Vec<usize>, (String, String)> {
+    let m = vals.len();
+    let mut seen = vec![false; m];
+    let mut parts = Vec::with_capacity(m);
+    let mut dup: Option<(usize, f64)> = None;
+    for (p, v) in vals.iter().enumerate() {
+        let f = v.floor();
+        if !(f >= 0. && (f as usize) < m) {
+            // value m exactly can arise from the f32 round-up of (m-1) + r
+            if *v == m as f64 {
+                dup = Some((p, *v));
+                parts.push(m);
+                continue;
+            }
+            return Err(("C03/single-item-not-permutation".into(), format!("position {} holds {} : integer part outside 0..m", p, v)));
+        }
+        let fi = f as usize;
+        if seen[fi] {
+            dup = Some((p, *v));
+        }
+        seen[fi] = true;
+        parts.push(fi);
+    }
+    if let Some((p, v)) = dup {
+        // which part is missing ?
+        let missing: Vec<usize> = (0..m).filter(|&i| !seen[i]).collect();
+        // round-up signature: some position holds an exactly integral value j+1 and part j is the missing one
+        let roundup = vals.iter().any(|x| x.fract() == 0. && *x >= 1. && missing.contains(&((*x as usize) - 1)));
+        if roundup && missing.len() == vals.iter().filter(|x| x.fract() == 0. && **x >= 1. && missing.contains(&((**x as usize) - 1))).count() {
+            let (ip, iv) = vals.iter().enumerate().find(|(_, x)| x.fract() == 0. && **x >= 1. && missing.contains(&((**x as usize) - 1))).map(|(i, x)| (i, *x)).unwrap_or((p, v));
+            return Err(("C03/f32-roundup".into(), format!("integer parts are not a permutation: position {} holds the exactly integral value {} (r + j rounded up to j+1), part(s) {:?} missing", ip, iv, missing)));
+        }
+        return Err(("C03/single-item-not-permutation".into(), format!("integer parts are not a permutation of 0..m: duplicate at position {} (value {}), missing {:?}", p, v, missing)));
+    }
+    Ok(parts)
+}
 
 pub fn run(rep: &mut Report) {
-    let _ = rep;
-    eprintln!("C03 not implemented yet");
+    quiet_panics();
+    rep.rule = "S: cell = (sketch type, m, set shape); per trial fresh random identifiers (hash collisions under the 32-bit hasher regenerated), both sets sketched by the real code; statistics: collision fraction (target J), squared error (bound J(1-J)/m, one-sided), staged z-tests. E: every single-item SuperMinHash sketch must carry a permutation of integer parts 0..m-1 (every trial); uniformity: all m! orders for m<=4, position x part table for m in {8,32} (chi-square), fractional parts KS-free moment tests and correlations (position 0 vs 1, fraction vs integer part). Non-trivial cell: 0<J<1; distinct by (kind, m, shape) and, for single items, by item".into();
+    let shapes = vec![
+        Shape { name: "disjoint", a_only: 20, b_only: 30, both: 0 },
+        Shape { name: "equal", a_only: 0, b_only: 0, both: 25 },
+        Shape { name: "nested_small", a_only: 0, b_only: 3, both: 1 },
+        Shape { name: "nested", a_only: 0, b_only: 200, both: 100 },
+        Shape { name: "partial", a_only: 30, b_only: 50, both: 40 },
+        Shape { name: "two_items", a_only: 1, b_only: 0, both: 1 },
+        Shape { name: "big_partial", a_only: 1000, b_only: 3000, both: 2000 },
+        Shape { name: "tiny_vs_huge", a_only: 0, b_only: 9999, both: 1 },
+        Shape { name: "high_j", a_only: 1, b_only: 2, both: 97 },
+    ];
+    let kinds = [UKind::SmhF32, UKind::SmhF64, UKind::SmhF64NoHash, UKind::Smh2U64, UKind::Smh2U32];
+    let ms = [1usize, 2, 16, 64, 256, 1000];
+    let t1: u64 = rep.tier.pick(4000, 40_000);
+    // ---------------- S part
+    let mut cells = Vec::new();
+    let mut crng = rng_from(subseed(rep.seed, "C03/cells", &[]));
+    for (ki, k) in kinds.iter().enumerate() {
+        for (si, s) in shapes.iter().enumerate() {
+            for (mi, m) in ms.iter().enumerate() {
+                // quick: a seeded third of the product, thorough: everything
+                let keep = rep.tier == Tier::Thorough || (ki + si + mi) % 3 == (rep.seed % 3) as usize || crng.random_range(0..6) == 0;
+                let big = s.a_only + s.b_only + s.both >= 5000;
+                if keep && !(big && rep.tier == Tier::Quick && (ki + mi) % 3 != 0) {
+                    cells.push((*k, si, *m));
+                }
+            }
+        }
+    }
+    for (ci, (kind, si, m)) in cells.iter().enumerate() {
+        let s = &shapes[*si];
+        let cell = format!("S/{}/m={}/{}", kind.name(), m, s.name);
+        if !rep.want(&cell) {
+            continue;
+        }
+        let n = s.a_only + s.b_only + s.both;
+        let j = s.both as f64 / n as f64;
+        let degenerate = j == 0. || j == 1.;
+        let tt = if n >= 5000 { (t1 / 8).max(500) } else { t1 };
+        let enough = |p: f64| (tt as f64) * (*m as f64 * p.min(1. - p)).min(1.) >= 400.;
+        let targets = vec![
+            Target::new("collision_fraction", j, if degenerate { Kind::Exact } else if enough(j) { Kind::TwoSided } else { Kind::Info }),
+            Target::new("squared_error", j * (1. - j) / *m as f64, if degenerate { Kind::Exact } else if enough(j) { Kind::Upper } else { Kind::Info }),
+        ];
+        let seed = subseed(rep.seed, "C03/S", &[ci as u64]);
+        let kind = *kind;
+        let m = *m;
+        let (rs, trials) = staged(seed, tt, 3, &targets, |rng, out| {
+            let (ids, _) = fresh_ids_distinct_hash(rng, n, kind);
+            let mut a: Vec<u64> = ids[..s.a_only].to_vec();
+            a.extend_from_slice(&ids[s.a_only + s.b_only..]);
+            let mut b: Vec<u64> = ids[s.a_only..].to_vec();
+            shuffle(&mut a, rng);
+            shuffle(&mut b, rng);
+            let mut ska = make_usk(kind, m);
+            ska.sketch_slice(&a);
+            let mut skb = make_usk(kind, m);
+            for x in &b {
+                skb.sketch(*x);
+            }
+            let ba = ska.bits();
+            let bb = skb.bits();
+            let eq = ba.iter().zip(bb.iter()).filter(|(x, y)| x == y).count();
+            let x = eq as f64 / m as f64;
+            out[0] = x;
+            out[1] = (x - j) * (x - j);
+        });
+        let case = json!({"kind": kind.name(), "m": m, "shape": s.name, "a_only": s.a_only, "b_only": s.b_only, "both": s.both, "J": j});
+        if ci < 2 {
+            rep.sample(case.clone());
+        }
+        if !degenerate {
+            rep.distinct.insert(mix(&[fnv64(kind.name().as_bytes()), m as u64, *si as u64]));
+        }
+        record_cell(rep, "C03", &cell, &rs, trials * 2, case);
+    }
+    // ---------------- E part: single item sketches
+    for (kind, label) in [(UKind::SmhF64, "f64"), (UKind::SmhF64NoHash, "f64nohash"), (UKind::SmhF32, "f32")] {
+        for m in [1usize, 2, 3, 4, 8, 32, 64, 1024, 4096] {
+            let cell = format!("E/single/{}/m={}", label, m);
+            if !rep.want(&cell) {
+                continue;
+            }
+            let ntr: u64 = rep.tier.pick(if m >= 1024 { 3000 } else { 60_000 }, if m >= 1024 { 30_000 } else { 600_000 });
+            let seed = subseed(rep.seed, &cell, &[]);
+            // permutation-ness of every trial + moment statistics
+            let nchunks = 64u64;
+            let res: Vec<(u64, Vec<(String, String, u64)>, [Acc; 4])> = (0..nchunks)
+                .into_par_iter()
+                .map(|c| {
+                    let mut rng = rng_from(mix(&[seed, c]));
+                    let mut fails = Vec::new();
+                    let mut acc = [Acc::new(); 4];
+                    let mut nn = 0;
+                    for _ in 0..ntr / nchunks {
+                        let id = fresh_ids(&mut rng, 1, 0)[0];
+                        let mut sk = make_usk(kind, m);
+                        sk.sketch(id);
+                        let vals: Vec<f64> = sk.bits().iter().map(|b| f64::from_bits(*b)).collect();
+                        nn += 1;
+                        match int_parts(&vals) {
+                            Ok(parts) => {
+                                let f0 = vals[0] - parts[0] as f64;
+                                acc[0].push(f0); // mean 1/2
+                                acc[1].push((f0 - 0.5) * (f0 - 0.5)); // variance 1/12
+                                if m >= 2 {
+                                    let f1 = vals[1] - parts[1] as f64;
+                                    acc[2].push((f0 - 0.5) * (f1 - 0.5)); // independence of fractional parts
+                                    acc[3].push((f0 - 0.5) * (parts[0] as f64 - (m as f64 - 1.) / 2.) / m as f64); // fraction vs integer part
+                                }
+                            }
+                            Err((k, w)) => {
+                                if fails.len() < 3 {
+                                    fails.push((k, w, id));
+                                }
+                            }
+                        }
+                    }
+                    (nn, fails, acc)
+                })
+                .collect();
+            let mut acc = [Acc::new(); 4];
+            let mut nfail_round = 0u64;
+            for (nn, fails, a) in res {
+                rep.evaluations += nn;
+                for i in 0..4 {
+                    acc[i].merge(&a[i]);
+                }
+                for (k, w, id) in fails {
+                    if k == "C03/f32-roundup" {
+                        nfail_round += 1;
+                    }
+                    rep.violation(&k, &cell, format!("{} m={} item {:#x}: {}", label, m, id, w), json!({"kind": kind.name(), "m": m, "item": id}));
+                }
+            }
+            rep.count(&format!("single_item_sketches.{}", label), ntr / nchunks * nchunks);
+            if nfail_round > 0 {
+                rep.count("f32_roundup_sketches_reported", nfail_round);
+            }
+            rep.distinct.insert(mix(&[fnv64(cell.as_bytes())]));
+            // moment tests (z on the pooled run; thresholds 5.5 one-shot = p ~ 4e-8 per test)
+            let tests = [("frac_mean", 0.5, 0), ("frac_var", 1. / 12., 1), ("frac0_frac1_cov", 0., 2), ("frac_int_cov", 0., 3)];
+            let mut zs = Vec::new();
+            for (name, theta, i) in tests {
+                if acc[i].n < 1000 || acc[i].se() == 0. {
+                    continue;
+                }
+                let z = (acc[i].mean - theta) / acc[i].se();
+                zs.push(json!({"stat": name, "z": (z * 100.).round() / 100., "n": acc[i].n}));
+                if z.abs() >= 5.5 {
+                    rep.violation("C03/single-item-fractional-law", &cell, format!("{} m={}: {} = {:.6} vs {:.6} (z={:.1}, n={})", label, m, name, acc[i].mean, theta, z, acc[i].n), json!({"kind": kind.name(), "m": m}));
+                }
+            }
+            rep.cells.push(json!({"cell": cell, "sketches": ntr, "moment_tests": zs}));
+        }
+        // uniformity of the permutation
+        for m in [2usize, 3, 4] {
+            let cell = format!("E/orders/{}/m={}", label, m);
+            if !rep.want(&cell) {
+                continue;
+            }
+            let nf: usize = (1..=m).product();
+            let seed = subseed(rep.seed, &cell, &[]);
+            chi2_staged(rep, &cell, "C03/single-item-permutation-not-uniform", seed, rep.tier.pick(120_000, 1_200_000), json!({"kind": kind.name(), "m": m}), |s, n| {
+                let counts = (0..64u64)
+                    .into_par_iter()
+                    .map(|c| {
+                        let mut rng = rng_from(mix(&[s, c]));
+                        let mut cnt = vec![0u64; nf];
+                        for _ in 0..n / 64 {
+                            let id = fresh_ids(&mut rng, 1, 0)[0];
+                            let mut sk = make_usk(kind, m);
+                            sk.sketch(id);
+                            let vals: Vec<f64> = sk.bits().iter().map(|b| f64::from_bits(*b)).collect();
+                            if let Ok(parts) = int_parts(&vals) {
+                                cnt[perm_index(&parts)] += 1;
+                            }
+                        }
+                        cnt
+                    })
+                    .reduce(|| vec![0u64; nf], |mut a, b| {
+                        for i in 0..nf {
+                            a[i] += b[i];
+                        }
+                        a
+                    });
+                let tot: u64 = counts.iter().sum();
+                (counts, vec![tot as f64 / nf as f64; nf], (nf - 1) as f64, 1.)
+            });
+        }
+        for m in [8usize, 32] {
+            let cell = format!("E/table/{}/m={}", label, m);
+            if !rep.want(&cell) {
+                continue;
+            }
+            let seed = subseed(rep.seed, &cell, &[]);
+            chi2_staged(rep, &cell, "C03/single-item-permutation-not-uniform", seed, rep.tier.pick(60_000, 600_000), json!({"kind": kind.name(), "m": m}), |s, n| {
+                let counts = (0..64u64)
+                    .into_par_iter()
+                    .map(|c| {
+                        let mut rng = rng_from(mix(&[s, c]));
+                        let mut cnt = vec![0u64; m * m];
+                        for _ in 0..n / 64 {
+                            let id = fresh_ids(&mut rng, 1, 0)[0];
+                            let mut sk = make_usk(kind, m);
+                            sk.sketch(id);
+                            let vals: Vec<f64> = sk.bits().iter().map(|b| f64::from_bits(*b)).collect();
+                            if let Ok(parts) = int_parts(&vals) {
+                                for (p, part) in parts.iter().enumerate() {
+                                    cnt[p * m + part] += 1;
+                                }
+                            }
+                        }
+                        cnt
+                    })
+                    .reduce(|| vec![0u64; m * m], |mut a, b| {
+                        for i in 0..a.len() {
+                            a[i] += b[i];
+                        }
+                        a
+                    });
+                let tot: u64 = counts.iter().sum();
+                (counts, vec![tot as f64 / (m * m) as f64; m * m], ((m - 1) * (m - 1)) as f64, (m - 1) as f64 / m as f64)
+            });
+        }
+    }
+    collect_ticks(rep);
+    rep.assumptions.push("identifiers whose 32-bit hashes collide (SuperMinHash2<u32> with XxHash32) are regenerated by the harness: the property is stated for distinct items".into());
 }
